@@ -375,3 +375,82 @@ def deep_incomplete_dist_sets(rng, n):
         ls = [rng.choice([11, 11, 12, 12, 12, 13, 13, 13, 14, 14, 15, 15, 7, 9]) for _ in range(30)]
         if sum(1 << (15 - l) for l in ls) < (1 << 15): out.append(ls)
     return out
+
+# ---- streams whose dynamic header is ALMOST a given one (e.g. ISA-L's own default header): producer-side only ----
+def _bits_of(data):
+    return [(data[i >> 3] >> (i & 7)) & 1 for i in range(len(data) * 8)]
+
+def parse_dyn_header(data):
+    """Parse the dynamic block header at bit 0 of `data` (a block made by some encoder; this only locates fields so that a
+    producer can modify them). Returns None if the first block is not dynamic."""
+    b = _bits_of(data[:400]); p = [0]
+    def rd(n):
+        v = sum(b[p[0] + i] << i for i in range(n)); p[0] += n; return v
+    rd(1)
+    if rd(2) != 2: return None
+    hlit, hdist, hclen = rd(5) + 257, rd(5) + 1, rd(4) + 4
+    cl_len = [0] * 19
+    for i in range(hclen): cl_len[CL_ORDER[i]] = rd(3)
+    codes = canon(cl_len); dec = {(cl_len[s], codes[s]): s for s in range(19) if cl_len[s]}
+    lens, entries = [], []
+    while len(lens) < hlit + hdist:
+        start = p[0]; c = 0; n = 0
+        while True:
+            c = (c << 1) | b[p[0]]; p[0] += 1; n += 1
+            if (n, c) in dec: s = dec[(n, c)]; break
+            if n > 7: return None
+        if s < 16: lens.append(s); entries.append({"sym": s, "pos": start, "n": n, "idx": len(lens) - 1})
+        else:
+            nb, base = {16: (2, 3), 17: (3, 3), 18: (7, 11)}[s]
+            r = rd(nb) + base; v = lens[-1] if s == 16 else 0
+            entries.append({"sym": s, "pos": start, "n": n, "idx": None}); lens += [v] * r
+    return {"hlit": hlit, "hdist": hdist, "cl_len": cl_len, "lens": lens[:hlit + hdist], "entries": entries, "end": p[0], "bits": b}
+
+def near_header_streams(rng, data, max_variants=6):
+    """Streams whose only dynamic block has the header found in `data` with ONE pair of neighbouring code lengths exchanged (the code stays
+    complete; where the two code-length symbols are equally long the header keeps its length and differs in a few bits only), followed by
+    data that uses the two symbols concerned.  Pairs are taken from the start, the middle and the very end of the header."""
+    h = parse_dyn_header(data)
+    if h is None: return []
+    ents = h["entries"]
+    plain = [e for k, e in enumerate(ents) if e["idx"] is not None and not (k + 1 < len(ents) and ents[k + 1]["sym"] == 16)]      # (a length that a following "repeat previous" copies is left alone)
+    pairs = [(a, c) for a, c in zip(plain, plain[1:]) if c["idx"] == a["idx"] + 1 and a["sym"] != c["sym"] and a["n"] == c["n"] and a["sym"] > 0 and c["sym"] > 0 and a["idx"] != 256 and c["idx"] != 256]
+    if not pairs: return []
+    pick = [pairs[-1], pairs[0], pairs[len(pairs) // 2]] + [p_ for p_ in pairs if p_[0]["idx"] >= h["hlit"]][:max_variants - 3]
+    out = []
+    for a, c in pick[:max_variants]:
+        bits = list(h["bits"][:h["end"]])
+        ca, cc = bits[a["pos"]:a["pos"] + a["n"]], bits[c["pos"]:c["pos"] + c["n"]]
+        bits[a["pos"]:a["pos"] + a["n"]], bits[c["pos"]:c["pos"] + c["n"]] = cc, ca
+        lens = list(h["lens"]); lens[a["idx"]], lens[c["idx"]] = lens[c["idx"]], lens[a["idx"]]
+        ll_len = lens[:h["hlit"]] + [0] * (286 - h["hlit"]); d_len = lens[h["hlit"]:] + [0] * (30 - h["hdist"])
+        ll_code, d_code = canon(ll_len), canon(d_len)
+        lits = [s for s in range(256) if ll_len[s]]
+        toks, total = [], 0
+        def lit(x=None):
+            nonlocal total
+            toks.append(("lit", x if x is not None else rng.choice(lits))); total += 1
+        if a["idx"] < h["hlit"]:                       # literal / length symbols exchanged
+            for _ in range(60): lit()
+            for s in (a["idx"], c["idx"]):
+                for _ in range(5):
+                    if s < 256: lit(s)
+                    elif s > 256 and ll_len[s] and any(d_len):
+                        ds = [i for i in range(30) if d_len[i] and DIST_BASE[i] <= total][:1]
+                        if ds: toks.append(("match", LEN_BASE[s - 257], DIST_BASE[ds[0]])); total += LEN_BASE[s - 257]
+                    lit()
+        else:                                          # distance symbols exchanged: matches at the distances of both symbols
+            need = DIST_BASE[max(a["idx"], c["idx"]) - h["hlit"]] + (1 << DIST_EXTRA[max(a["idx"], c["idx"]) - h["hlit"]])
+            for _ in range(need + 50): lit()
+            lsyms = [s for s in range(257, 286) if ll_len[s]]
+            for rep in range(6):
+                for e in (a, c):
+                    ds = e["idx"] - h["hlit"]; d = DIST_BASE[ds] + rng.randrange(1 << DIST_EXTRA[ds])
+                    ln = LEN_BASE[rng.choice(lsyms) - 257]
+                    toks.append(("match", ln, min(d, total))); total += ln; lit()
+        bw = BitWriter()
+        bw.bits(1, 1)
+        for x in bits[1:]: bw.bits(x, 1)
+        emit_tokens(bw, toks, ll_len, ll_code, d_len, d_code)
+        out.append(("idx%d<->%d" % (a["idx"], c["idx"]), bw.done()))
+    return out
